@@ -124,6 +124,19 @@ class RoundTrip:
         if not same(l[1], rec):
             return self.viol("roundtrip", vals, "load(save(r)) = %r from text %r" % (l[1], s[1]),
                              field=self.first_diff(l[1], rec))
+        # load() is a function of the text: changing the record it returned must not change what the next
+        # load() of the same text returns
+        if self.records % 3 == 0 and dataclasses.fields(rec):
+            f0 = dataclasses.fields(rec)[0].name
+            try:
+                setattr(l[1], f0, "changed-by-the-caller")
+            except Exception:   # noqa  (frozen records: nothing to test)
+                pass
+            else:
+                l2 = observe(self.cls.load, s[1])
+                if l2[0] != "ok" or not same(l2[1], rec):
+                    return self.viol("load-not-a-function-of-the-text", vals,
+                                     "x = load(t); x.%s = ...; load(t) -> %r, expected %r (t = %r)" % (f0, l2, rec, s[1]))
         # what _save_from_iter writes for this record (through the public save() of a mutable record file)
         if self.mf is None:
             self.fresh_mf()
